@@ -860,7 +860,7 @@ pub fn gen_filtered(
             by_shape.entry(addr_shape_key(&ins)).or_default().push(tpl.clone());
         }
     }
-    let per_shape = if tier == "thorough" { 4 * per.max(1) } else { 2 * per.clamp(1, 3) };
+    let per_shape = if tier == "thorough" { (per / 2).clamp(8, 40) } else { 2 * per.clamp(1, 3) };
     for temps in by_shape.values() {
         for _ in 0..per_shape {
             let tpl = rng.pick(temps).clone();
